@@ -277,6 +277,132 @@ Proof.
   subst. left. apply last_change_in. assumption.
 Qed.
 
+(* ================================================================ batch_update's change list *)
+Lemma opt_val_eqb_eq : forall a b, opt_val_eqb a b = true <-> a = b.
+Proof.
+  intros [x|] [y|]; cbn; split; intro H; try discriminate; try reflexivity.
+  - apply bytes_eqb_eq in H. congruence.
+  - inv H. apply bytes_eqb_refl.
+Qed.
+Lemma get_in_keys : forall st k v, get st k = Some v -> In k (map fst st).
+Proof.
+  induction st as [|[k0 v0] tl IH]; intros k v H; [discriminate|]. cbn in *.
+  destruct (bytes_eqb k0 k) eqn:E; [left; apply bytes_eqb_eq; exact E | right; eapply IH; exact H].
+Qed.
+Lemma existsb_bytes_in : forall k l, existsb (bytes_eqb k) l = true <-> In k l.
+Proof.
+  intros k l. rewrite existsb_exists. split.
+  - intros [x [Hx He]]. apply bytes_eqb_eq in He. subst. exact Hx.
+  - intro H. exists k. split; [exact H | apply bytes_eqb_refl].
+Qed.
+Lemma dedup_keys_in : forall l seen k, In k (dedup_keys seen l) <-> In k l /\ ~ In k seen.
+Proof.
+  induction l as [|x tl IH]; intros seen k; cbn; [tauto|].
+  destruct (existsb (bytes_eqb x) seen) eqn:E.
+  - apply existsb_bytes_in in E. rewrite IH. split.
+    + intros [H1 H2]. auto.
+    + intros [[Hx | H] Hn]; [subst; contradiction | auto].
+  - assert (~ In x seen) by (intro H; apply existsb_bytes_in in H; congruence).
+    cbn. rewrite IH. cbn. split.
+    + intros [Hx | [H1 H2]]; [subst; auto | split; [auto|]]. intro Hs. apply H2. right. exact Hs.
+    + intros [[Hx | H1] H2]; [left; exact Hx|]. destruct (list_eq_dec N.eq_dec x k) as [Heq | Hne]; [left; exact Heq|].
+      right. split; [exact H1|]. intros [Hx | Hs]; [contradiction | contradiction].
+Qed.
+Lemma dedup_keys_nodup : forall l seen, NoDup (dedup_keys seen l).
+Proof.
+  induction l as [|x tl IH]; intro seen; cbn; [constructor|].
+  destruct (existsb (bytes_eqb x) seen); [apply IH|]. constructor; [|apply IH].
+  rewrite dedup_keys_in. cbn. tauto.
+Qed.
+Lemma ins_change_in : forall c l x, In x (ins_change c l) <-> x = c \/ In x l.
+Proof.
+  induction l as [|y tl IH]; intro x; cbn; [intuition congruence|].
+  destruct (bytes_leb (fst c) (fst y)); cbn; [intuition congruence|]. rewrite IH. intuition congruence.
+Qed.
+Lemma sort_changes_cons : forall c tl, sort_changes (c :: tl) = ins_change c (sort_changes tl).
+Proof. reflexivity. Qed.
+Lemma sort_changes_in : forall l x, In x (sort_changes l) <-> In x l.
+Proof.
+  induction l as [|c tl IH]; intro x; [cbn; tauto|]. rewrite sort_changes_cons, ins_change_in, IH. cbn. intuition congruence.
+Qed.
+Lemma ins_change_nodup : forall c l, ~ In (fst c) (map fst l) -> NoDup (map fst l) -> NoDup (map fst (ins_change c l)).
+Proof.
+  induction l as [|y tl IH]; intros Hn Hd; cbn; [constructor; [tauto | constructor]|].
+  destruct (bytes_leb (fst c) (fst y)); cbn; [constructor; assumption|].
+  inv Hd. cbn in Hn. constructor.
+  - intro H. apply in_map_iff in H as [z [Hz Hin]]. apply ins_change_in in Hin as [-> | Hin]; [apply Hn; left; symmetry; exact Hz|].
+    apply H1. rewrite <- Hz. apply in_map. exact Hin.
+  - apply IH; tauto.
+Qed.
+Lemma sort_changes_nodup : forall l, NoDup (map fst l) -> NoDup (map fst (sort_changes l)).
+Proof.
+  induction l as [|c tl IH]; intro H; [cbn; constructor|]. rewrite sort_changes_cons. cbn in H. inv H.
+  apply ins_change_nodup; [|apply IH; assumption].
+  intro Hin. apply in_map_iff in Hin as [z [Hz Hi]]. rewrite sort_changes_in in Hi. apply H2. rewrite <- Hz. apply in_map. exact Hi.
+Qed.
+Lemma last_change_none : forall k l, ~ In k (map fst l) -> last_change k l = None.
+Proof.
+  induction l as [|c tl IH]; intro H; [reflexivity|]. cbn in *. rewrite IH by tauto.
+  destruct (bytes_eqb (fst c) k) eqn:E; [|reflexivity]. apply bytes_eqb_eq in E. tauto.
+Qed.
+Lemma last_change_unique : forall k r l, NoDup (map fst l) -> In (k, r) l -> last_change k l = Some r.
+Proof.
+  induction l as [|c tl IH]; intros Hd Hi; [contradiction|]. cbn in *. inv Hd. destruct Hi as [-> | Hi].
+  - cbn in *. rewrite last_change_none by assumption. rewrite bytes_eqb_refl. reflexivity.
+  - rewrite IH by assumption. reflexivity.
+Qed.
+
+Definition diff_item (before after : state) (k : key) : list change :=
+  if opt_val_eqb (get before k) (get after k) then [] else [(k, get after k)].
+Lemma diff_items_in : forall before after ks k r,
+  In (k, r) (flat_map (diff_item before after) ks) <->
+  In k ks /\ opt_val_eqb (get before k) (get after k) = false /\ r = get after k.
+Proof.
+  intros before after ks k r. rewrite in_flat_map. unfold diff_item. split.
+  - intros [x [Hx Hi]]. destruct (opt_val_eqb (get before x) (get after x)) eqn:E; [contradiction|].
+    destruct Hi as [Hi | []]. inv Hi. auto.
+  - intros [Hk [He ->]]. exists k. rewrite He. cbn. auto.
+Qed.
+Lemma diff_items_nodup : forall before after ks, NoDup ks -> NoDup (map fst (flat_map (diff_item before after) ks)).
+Proof.
+  induction ks as [|x tl IH]; intro H; cbn; [constructor|]. inv H. rewrite map_app.
+  unfold diff_item at 1. destruct (opt_val_eqb (get before x) (get after x)); cbn; [apply IH; assumption|].
+  constructor; [|apply IH; assumption].
+  intro Hin. apply in_map_iff in Hin as [[k r] [Hz Hi]]. cbn in Hz. subst k. apply diff_items_in in Hi. tauto.
+Qed.
+
+Lemma batch_diff_last : forall before after k,
+  last_change k (batch_diff before after) =
+  if opt_val_eqb (get before k) (get after k) then None else Some (get after k).
+Proof.
+  intros before after k. unfold batch_diff.
+  set (ks := dedup_keys [] (map fst after ++ map fst before)).
+  change (fun k0 : key => if opt_val_eqb (get before k0) (get after k0) then [] else [(k0, get after k0)]) with (diff_item before after).
+  assert (Hnd : NoDup (map fst (sort_changes (flat_map (diff_item before after) ks))))
+    by (apply sort_changes_nodup, diff_items_nodup, dedup_keys_nodup).
+  destruct (opt_val_eqb (get before k) (get after k)) eqn:E.
+  - apply last_change_none. intro Hin. apply in_map_iff in Hin as [[k' r] [Hz Hi]]. cbn in Hz. subst k'.
+    apply sort_changes_in, diff_items_in in Hi. destruct Hi as [_ [He _]]. congruence.
+  - apply last_change_unique; [exact Hnd|]. apply sort_changes_in, diff_items_in. split; [|auto].
+    unfold ks. apply dedup_keys_in. split; [|tauto]. apply in_or_app.
+    destruct (get after k) as [v|] eqn:Ea; [left; eapply get_in_keys; exact Ea|].
+    destruct (get before k) as [v|] eqn:Eb; [right; eapply get_in_keys; exact Eb|]. discriminate.
+Qed.
+
+(* applying the computed difference to (a state equivalent to) the old map gives the new map *)
+Lemma batch_diff_apply : forall before after M, before ≈ M -> apply_changes M (batch_diff before after) ≈ after.
+Proof.
+  intros before after M HM k. rewrite get_apply_changes, batch_diff_last.
+  destruct (opt_val_eqb (get before k) (get after k)) eqn:E; [|reflexivity].
+  apply opt_val_eqb_eq in E. rewrite <- HM. exact E.
+Qed.
+Lemma batch_diff_values : forall before after k v, In (k, Some v) (batch_diff before after) -> get after k = Some v.
+Proof.
+  intros before after k v H. unfold batch_diff in H. rewrite sort_changes_in in H.
+  change (fun k0 : key => if opt_val_eqb (get before k0) (get after k0) then [] else [(k0, get after k0)]) with (diff_item before after) in H.
+  apply diff_items_in in H. destruct H as [_ [_ H]]. auto.
+Qed.
+
 (* ================================================================ sorting *)
 Lemma ins_by_in : forall {A} le (x y : N * A) l, In y (ins_by le x l) <-> y = x \/ In y l.
 Proof.
@@ -412,6 +538,14 @@ Section RecoveryFacts.
     apply fold_files_src in H. destruct H as [H | H]; [right | left; exact H].
     apply load_snaps_src in H. destruct H as [ts [b [h [st [Hi Hr]]]]].
     exists ts, b, h, st. split; [|exact Hr]. unfold sort_desc in Hi. apply isort_by_in in Hi. exact Hi.
+  Qed.
+
+  (* with the MAC idealisation "a tag verifies only for records this store wrote" *)
+  Lemma from_record_written : forall (Written : entry -> Prop) files k v,
+    (forall e, verify e = true -> Written e) -> from_record files k v ->
+    exists e cs, Written e /\ entry_changes e = Some cs /\ In (k, Some v) cs.
+  Proof.
+    intros W files k v HW [b [body [e [cs [_ [_ [[_ [Hv Hc]] Hin]]]]]]]. exists e, cs. auto.
   Qed.
 
   (* ---- C07_before_damage / after_damage *)
@@ -738,12 +872,14 @@ Section WriterFacts.
     - apply steq_sym. rewrite <- apply_changes_app, <- app_assoc, <- effs_app. exact HM.
   Qed.
 
-  (* the disk invariant: M = committed state, C = upper bound of every id on disk *)
+  (* the disk invariant: M = committed state, C = the transaction counter recovery will return
+     (the largest id on disk) *)
   Definition DInvG (d : disk) (M : state) (C : N) (t : bytes) : Prop :=
     exists R ew S0 cs,
       LogShape d R ew t /\ SnapShape d S0 cs /\ Cover S0 cs (all_entries R ew) M /\
       StronglySorted (fun a b => e_txid a < e_txid b) (all_entries R ew) /\
-      Forall (fun e => e_txid e <= C) (all_entries R ew) /\ cs <= C.
+      Forall (fun e => e_txid e <= C) (all_entries R ew) /\ cs <= C /\
+      max_txid cs (all_entries R ew) = C.
   Definition DInv (d : disk) (M : state) (C : N) : Prop := exists t, DInvG d M C t.
 
   Lemma max_txid_bound : forall es c C, c <= C -> Forall (fun e => e_txid e <= C) es -> max_txid c es <= C.
@@ -760,13 +896,13 @@ Section WriterFacts.
   Qed.
 
   (* what recovery returns on a disk satisfying the invariant *)
-  Lemma recover_DInv : forall d M C, DInv d M C -> r_state (recover d) ≈ M /\ r_ctr (recover d) <= C.
+  Lemma recover_DInv : forall d M C, DInv d M C -> r_state (recover d) ≈ M /\ r_ctr (recover d) = C.
   Proof.
-    intros d M C [t [R [ew [S0 [cs [Hl [Hs [Hc [_ [Hb Hcs]]]]]]]]]].
+    intros d M C [t [R [ew [S0 [cs [Hl [Hs [Hc [_ [Hb [Hcs Hmx]]]]]]]]]]].
     pose proof (recover_shape d R ew t S0 cs Hl Hs) as H. unfold r_state, r_ctr.
     destruct (recover d) as [[st c] s]. cbn in H. inv H. cbn. split.
     - apply cover_recover with cs. exact Hc.
-    - apply max_txid_bound; assumption.
+    - first [exact Hmx | reflexivity].
   Qed.
 
   (* ---- steps of the writer *)
@@ -788,7 +924,7 @@ Section WriterFacts.
     genuine e -> C < e_txid e ->
     DInvG (exec1 d (AAppend FWal (frame (ser e)))) (apply_changes M (eff e)) (e_txid e) [].
   Proof.
-    intros d M C e y [R [ew [S0 [cs [Hl [Hs [Hc [Hsort [Hb Hcs]]]]]]]]] Hy Hg Hlt.
+    intros d M C e y [R [ew [S0 [cs [Hl [Hs [Hc [Hsort [Hb [Hcs Hmx]]]]]]]]]] Hy Hg Hlt.
     destruct Hl as [Hr [HRs [Hw [_ Hgs]]]].
     destruct Hw as [Hw | [Hw _]]; [|congruence]. rewrite app_nil_r in Hw.
     exists R, (ew ++ [e]), S0, cs. cbn [exec1 read write]. rewrite Hw. repeat split.
@@ -813,6 +949,7 @@ Section WriterFacts.
       + eapply Forall_impl; [|exact Hb]. cbn. intros; lia.
       + constructor; [lia | constructor].
     - lia.
+    - rewrite all_entries_snoc, max_txid_app, Hmx. cbn. lia.
   Qed.
 
   (* the process dies inside the write: the bytes form a torn tail, nothing is committed *)
@@ -820,7 +957,7 @@ Section WriterFacts.
     (0 < n < length (frame (ser e)))%nat ->
     DInvG (exec1 d (AAppend FWal (firstn n (frame (ser e))))) M C (firstn n (frame (ser e))).
   Proof.
-    intros d M C e y n [R [ew [S0 [cs [Hl [Hs [Hc [Hsort [Hb Hcs]]]]]]]]] Hy Hn.
+    intros d M C e y n [R [ew [S0 [cs [Hl [Hs [Hc [Hsort [Hb [Hcs Hmx]]]]]]]]]] Hy Hn.
     destruct Hl as [Hr [HRs [Hw [_ Hgs]]]].
     destruct Hw as [Hw | [Hw _]]; [|congruence]. rewrite app_nil_r in Hw.
     exists R, ew, S0, cs. cbn [exec1 read write]. rewrite Hw. repeat split; try assumption.
@@ -853,7 +990,7 @@ Section WriterFacts.
     DInvG (exec1 d (ARename FWal (FRot (next_seq d)))) M C [] /\
     d_wal (exec1 d (ARename FWal (FRot (next_seq d)))) = None.
   Proof.
-    intros d M C y [R [ew [S0 [cs [Hl [Hs [Hc [Hsort [Hb Hcs]]]]]]]]] Hy.
+    intros d M C y [R [ew [S0 [cs [Hl [Hs [Hc [Hsort [Hb [Hcs Hmx]]]]]]]]]] Hy.
     destruct Hl as [Hr [HRs [Hw [_ Hgs]]]].
     destruct Hw as [Hw | [Hw _]]; [|congruence]. rewrite app_nil_r in Hw.
     assert (Hnone : aupdate (next_seq d) (fbytes ew) (d_rot d) = None).
@@ -877,7 +1014,7 @@ Section WriterFacts.
   Lemma step_create_wal : forall d M C, DInvG d M C [] -> d_wal d = None ->
     DInvG (exec1 d (ACreate FWal)) M C [] /\ d_wal (exec1 d (ACreate FWal)) = Some [].
   Proof.
-    intros d M C [R [ew [S0 [cs [Hl [Hs [Hc [Hsort [Hb Hcs]]]]]]]]] Hn.
+    intros d M C [R [ew [S0 [cs [Hl [Hs [Hc [Hsort [Hb [Hcs Hmx]]]]]]]]]] Hn.
     destruct Hl as [Hr [HRs [Hw [_ Hgs]]]].
     destruct Hw as [Hw | [Hw [-> _]]]; [congruence|].
     cbn [exec1 read]. rewrite Hn. cbn [write d_wal]. split; [|reflexivity].
@@ -944,20 +1081,6 @@ Section WriterFacts.
   Qed.
 
   (* ---- whole operations (record-writing operations and the rolled-back batch) *)
-  Lemma DInvG_mono : forall d M C C' t, C <= C' -> DInvG d M C t -> DInvG d M C' t.
-  Proof.
-    intros d M C C' t Hle [R [ew [S0 [cs [Hl [Hs [Hc [Hsort [Hb Hcs]]]]]]]]].
-    exists R, ew, S0, cs. repeat split; try assumption; try (exact (proj1 Hs)); try (exact (proj2 Hs)).
-    - destruct Hl as [? [? [? [? ?]]]]; assumption.
-    - destruct Hl as [? [? [? [? ?]]]]; assumption.
-    - destruct Hl as [? [? [? [? ?]]]]; assumption.
-    - destruct Hl as [? [? [? [? ?]]]]; assumption.
-    - destruct Hl as [? [? [? [? ?]]]]; assumption.
-    - eapply Forall_impl; [|exact Hb]. cbn. intros; lia.
-    - lia.
-  Qed.
-  Lemma DInv_mono : forall d M C C', C <= C' -> DInv d M C -> DInv d M C'.
-  Proof. intros d M C C' Hle [t H]. exists t. eapply DInvG_mono; eassumption. Qed.
   Lemma DInvG_steq : forall d M M' C t, M ≈ M' -> DInvG d M C t -> DInvG d M' C t.
   Proof.
     intros d M M' C t HM [R [ew [S0 [cs [Hl [Hs [Hc H]]]]]]].
@@ -987,117 +1110,6 @@ Section WriterFacts.
     - rewrite <- Hns. destruct (step_rotate_rename d1 _ _ y1 Hfull Hy1) as [H2 Hn2].
       destruct (step_create_wal _ _ _ H2 Hn2) as [H3 Hw3]. split; [exact H3 | eauto].
     - split; [exact Hfull | eauto].
-  Qed.
-
-  Definition simple_op (o : op) : Prop :=
-    match o with
-    | OUpsert _ _ v => val_ok v = true
-    | ODelete _ _ | OBatchFail => True
-    | OBatch _ _ | OCheckpoint _ => False
-    end.
-  (* writer state and disk agree: M is the committed state *)
-  Definition WInv (d : disk) (w : wstate) (M : state) : Prop :=
-    DInvG d M (w_ctr w) [] /\ (exists y, d_wal d = Some y) /\ w_mem w ≈ M.
-
-  Notation op_actions := (op_actions deser mac ser enc_changes ser_hdr enc_map).
-  Notation run_ops := (run_ops deser mac ser enc_changes ser_hdr enc_map).
-  Notation crash_disk := (crash_disk deser mac ser enc_changes ser_hdr enc_map).
-  Notation mk_entry := (mk_entry mac).
-
-  Lemma mk_entry_verify : forall c ts t k v, verify (mk_entry c ts t k v) = true.
-  Proof. intros. unfold Wal.verify, Wal.mk_entry, fields_of. cbn. apply bytes_eqb_refl. Qed.
-
-  Lemma apply_change_steq : forall a b c, a ≈ b -> apply_change a c ≈ apply_change b c.
-  Proof. intros a b c H k. rewrite !get_apply_change. destruct (bytes_eqb (fst c) k); [reflexivity | apply H]. Qed.
-
-  Lemma op_step_simple : forall d w M o, WInv d w M -> simple_op o ->
-    (forall a b, let dc := exec d (cut (fst (op_actions d w o)) a b) in
-       DInv dc M (w_ctr (snd (op_actions d w o))) \/ DInv dc (apply_op M o) (w_ctr (snd (op_actions d w o)))) /\
-    WInv (exec d (fst (op_actions d w o))) (snd (op_actions d w o)) (apply_op M o) /\
-    w_ctr w <= w_ctr (snd (op_actions d w o)).
-  Proof.
-    intros d w M o [HI [[y Hy] Hm]] Hs. destruct o as [ts k v | ts k | ts cs | | ts]; cbn in Hs; try contradiction.
-    - (* upsert *)
-      set (e := mk_entry (w_ctr w + 1) ts TUpsert k (Some v)).
-      assert (Hg : genuine e).
-      { split; [apply mk_entry_verify|]. exists [(k, Some v)]. unfold Wal.entry_changes, e. cbn. rewrite Hs. reflexivity. }
-      assert (Heff : eff e = [(k, Some v)]) by (unfold eff, Wal.entry_changes, e; cbn; rewrite Hs; reflexivity).
-      assert (Hlt : w_ctr w < e_txid e) by (cbn; lia).
-      unfold Wal.op_actions. fold e.
-      pose proof (write_cuts d w M (w_ctr w) e y true) as Hcuts.
-      pose proof (write_full d w M (w_ctr w) e y true HI Hy Hg Hlt) as [Hf [y' Hy']].
-      destruct (write_actions ser d w e true) as [acts w'] eqn:Ew. cbn [fst snd w_ctr] in *.
-      unfold apply_op. cbn [op_changes]. rewrite Heff in *. repeat split.
-      + intros a b. destruct (Hcuts a b HI Hy Hg Hlt) as [H | H]; [left | right].
-        * eapply DInv_mono; [|exact H]. lia.
-        * exact H.
-      + exact Hf.
-      + eauto.
-      + cbn [w_mem]. cbn [apply_changes fold_left]. intro k'. rewrite get_set, get_apply_change. cbn [fst snd].
-        destruct (bytes_eqb k k'); [reflexivity | apply Hm].
-      + lia.
-    - (* delete *)
-      set (e := mk_entry (w_ctr w + 1) ts TDelete k None).
-      assert (Hg : genuine e).
-      { split; [apply mk_entry_verify|]. exists [(k, None)]. reflexivity. }
-      assert (Heff : eff e = [(k, None)]) by reflexivity.
-      assert (Hlt : w_ctr w < e_txid e) by (cbn; lia).
-      unfold Wal.op_actions. fold e.
-      pose proof (write_cuts d w M (w_ctr w) e y true) as Hcuts.
-      pose proof (write_full d w M (w_ctr w) e y true HI Hy Hg Hlt) as [Hf [y' Hy']].
-      destruct (write_actions ser d w e true) as [acts w'] eqn:Ew. cbn [fst snd w_ctr] in *.
-      unfold apply_op. cbn [op_changes]. rewrite Heff in *. repeat split.
-      + intros a b. destruct (Hcuts a b HI Hy Hg Hlt) as [H | H]; [left | right].
-        * eapply DInv_mono; [|exact H]. lia.
-        * exact H.
-      + exact Hf.
-      + eauto.
-      + cbn [w_mem]. cbn [apply_changes fold_left]. intro k'. rewrite get_del, get_apply_change. cbn [fst snd].
-        destruct (bytes_eqb k k'); [reflexivity | apply Hm].
-      + lia.
-    - (* rolled-back batch: only the counter moves *)
-      cbn [Wal.op_actions fst snd w_ctr w_mem]. unfold apply_op. cbn [op_changes apply_changes fold_left]. repeat split.
-      + intros a b. left. replace (cut [] a b) with (@nil action) by (unfold cut; destruct a; reflexivity).
-        cbn. eapply DInvG_DInv. eapply DInvG_mono; [|exact HI]. lia.
-      + cbn. eapply DInvG_mono; [|exact HI]. lia.
-      + cbn. eauto.
-      + exact Hm.
-      + lia.
-  Qed.
-
-  Lemma run_ops_simple : forall ops d w M, WInv d w M -> Forall simple_op ops ->
-    WInv (fst (run_ops d w ops)) (snd (run_ops d w ops)) (apply_ops M ops).
-  Proof.
-    induction ops as [|o tl IH]; intros d w M HW Hs; [exact HW|]. inv Hs.
-    cbn [Wal.run_ops]. destruct (op_step_simple d w M o HW H1) as [_ [HW' _]].
-    destruct (op_actions d w o) as [acts w']. cbn [fst snd] in HW'.
-    cbn [apply_ops fold_left]. apply IH; assumption.
-  Qed.
-
-  Lemma firstn_S_nth : forall {A} (l : list A) i x, nth_error l i = Some x -> firstn (S i) l = firstn i l ++ [x].
-  Proof.
-    induction l as [|y tl IH]; intros i x H; [destruct i; discriminate|].
-    destruct i; cbn in *; [inv H; reflexivity|]. rewrite (IH i x H). reflexivity.
-  Qed.
-  Lemma apply_ops_app : forall a b st, apply_ops st (a ++ b) = apply_ops (apply_ops st a) b.
-  Proof. intros. unfold apply_ops. apply fold_left_app. Qed.
-
-  (* every crash point of every history of record-writing operations *)
-  Lemma crash_prefix_simple : forall ops d w M i a b, WInv d w M -> Forall simple_op ops ->
-    exists j, (i <= j <= S i)%nat /\ r_state (recover (crash_disk d w ops i a b)) ≈ apply_ops M (firstn j ops).
-  Proof.
-    intros ops d w M i a b HW Hs. unfold Wal.crash_disk.
-    assert (Hs1 : Forall simple_op (firstn i ops)).
-    { apply Forall_forall. intros o Ho. rewrite Forall_forall in Hs. apply Hs. rewrite <- (firstn_skipn i ops). apply in_or_app. left. exact Ho. }
-    pose proof (run_ops_simple (firstn i ops) d w M HW Hs1) as HW1.
-    destruct (run_ops d w (firstn i ops)) as [d1 w1]. cbn [fst snd] in HW1.
-    destruct (nth_error ops i) as [o|] eqn:En.
-    - assert (Ho : simple_op o) by (rewrite Forall_forall in Hs; apply Hs; eapply nth_error_In; exact En).
-      destruct (op_step_simple d1 w1 _ o HW1 Ho) as [Hcut _].
-      destruct (Hcut a b) as [H | H]; apply recover_DInv in H as [H _].
-      + exists i. split; [lia | exact H].
-      + exists (S i). split; [lia|]. rewrite (firstn_S_nth ops i o En), apply_ops_app. exact H.
-    - exists i. split; [lia|]. destruct HW1 as [HI _]. apply DInvG_DInv in HI. apply recover_DInv in HI as [H _]. exact H.
   Qed.
 
   (* ---- checkpoint *)
@@ -1166,27 +1178,6 @@ Section WriterFacts.
           pose proof (sorted_desc_head_bound tl t0 b0 p Hs Hp). lia.
   Qed.
 
-  Lemma step_install_snapshot : forall d M C mem ts file h st' t,
-    DInvG d M C t -> ts_ok d ts -> read d (FTmp ts) = Some file ->
-    snap_valid file = Some (h, st') -> st' ≈ mem -> mem ≈ M -> h_txid h = C ->
-    DInvG (exec1 d (ARename (FTmp ts) (FSnap ts))) M C t /\
-    (exists tl, d_snap (exec1 d (ARename (FTmp ts) (FSnap ts))) = (ts, file) :: tl /\ forall p, In p tl -> In p (d_snap d)).
-  Proof.
-    intros d M C mem ts file h st' t [R [ew [S0 [cs [Hl [Hs [Hc [Hsort [Hb Hcs]]]]]]]]] Hts Hrd Hv He Hm Hc'.
-    cbn [exec1]. rewrite Hrd. cbn [unlink write d_wal d_rot d_snap d_tmp].
-    destruct Hs as [Hss Hsh].
-    destruct (aput_front_newest (d_snap d) ts file Hss Hts) as [tl [Heq [Hs' Hin]]].
-    split; [|exists tl; split; [exact Heq | exact Hin]].
-    exists R, ew, st', C. unfold LogShape, SnapShape in *. cbn [d_wal d_rot d_snap]. rewrite Heq.
-    split; [exact Hl|]. split; [split; [exact Hs' | exists h; auto]|]. split; [|split; [exact Hsort | split; [exact Hb | lia]]].
-    destruct Hc as [X [L0 [E1 [E2 [HE [HS [H1 [H2 HM]]]]]]]].
-    exists X, L0, (all_entries R ew), []. rewrite app_nil_r. repeat split.
-    - eapply steq_trans; [exact He|]. eapply steq_trans; [exact Hm | exact HM].
-    - exact Hb.
-    - constructor.
-    - exact HM.
-  Qed.
-
   (* after the new snapshot is installed it holds the whole committed state *)
   Definition DInvFull (d : disk) (M : state) (C : N) (t : bytes) : Prop :=
     exists R ew S0 X L0,
@@ -1194,22 +1185,29 @@ Section WriterFacts.
       StronglySorted (fun a b => e_txid a < e_txid b) (all_entries R ew) /\
       Forall (fun e => e_txid e <= C) (all_entries R ew).
 
+  Lemma max_txid_all_le : forall es c, Forall (fun e => e_txid e <= c) es -> max_txid c es = c.
+  Proof.
+    induction es as [|e tl IH]; intros c H; [reflexivity|]. inv H. cbn.
+    replace (N.max c (e_txid e)) with c by lia. apply IH. assumption.
+  Qed.
+
   Lemma DInvFull_DInvG : forall d M C t, DInvFull d M C t -> DInvG d M C t.
   Proof.
     intros d M C t [R [ew [S0 [X [L0 [Hl [Hs [HS [HM [Hsort Hb]]]]]]]]]].
-    exists R, ew, S0, C. split; [exact Hl|]. split; [exact Hs|]. split; [|split; [exact Hsort | split; [exact Hb | lia]]].
+    exists R, ew, S0, C. split; [exact Hl|]. split; [exact Hs|].
+    split; [|split; [exact Hsort | split; [exact Hb | split; [lia | apply max_txid_all_le; exact Hb]]]].
     exists X, L0, (all_entries R ew), []. rewrite app_nil_r. repeat split; try assumption; try constructor.
     eapply steq_trans; eassumption.
   Qed.
 
-  Lemma step_install_snapshot_full : forall d M C mem ts file h st' t,
-    DInvG d M C t -> ts_ok d ts -> read d (FTmp ts) = Some file ->
-    snap_valid file = Some (h, st') -> st' ≈ mem -> mem ≈ M -> h_txid h = C ->
-    DInvFull (exec1 d (ARename (FTmp ts) (FSnap ts))) M C t /\
+  Lemma step_install_snapshot_full : forall d M C C2 mem ts file h st' t,
+    DInvG d M C t -> C <= C2 -> ts_ok d ts -> read d (FTmp ts) = Some file ->
+    snap_valid file = Some (h, st') -> st' ≈ mem -> mem ≈ M -> h_txid h = C2 ->
+    DInvFull (exec1 d (ARename (FTmp ts) (FSnap ts))) M C2 t /\
     d_rot (exec1 d (ARename (FTmp ts) (FSnap ts))) = d_rot d /\
     (exists tl, d_snap (exec1 d (ARename (FTmp ts) (FSnap ts))) = (ts, file) :: tl /\ forall p, In p tl -> In p (d_snap d)).
   Proof.
-    intros d M C mem ts file h st' t [R [ew [S0 [cs [Hl [Hs [Hc [Hsort [Hb Hcs]]]]]]]]] Hts Hrd Hv He Hm Hc'.
+    intros d M C C2 mem ts file h st' t [R [ew [S0 [cs [Hl [Hs [Hc [Hsort [Hb [Hcs Hmx]]]]]]]]]] HC Hts Hrd Hv He Hm Hc'.
     cbn [exec1]. rewrite Hrd. cbn [unlink write d_wal d_rot d_snap d_tmp].
     destruct Hs as [Hss Hsh].
     destruct (aput_front_newest (d_snap d) ts file Hss Hts) as [tl [Heq [Hs' Hin]]].
@@ -1219,7 +1217,7 @@ Section WriterFacts.
     split; [exact Hl|]. split; [split; [exact Hs' | exists h; auto]|].
     split; [eapply steq_trans; [exact He|]; eapply steq_trans; [exact Hm | exact HM]|].
     split; [eapply steq_trans; [apply steq_sym; exact Hm | apply steq_sym; exact He]|].
-    split; assumption.
+    split; [assumption|]. eapply Forall_impl; [|exact Hb]. cbn. intros; lia.
   Qed.
 
   Lemma aremove_head_sorted : forall (R : list (N * list entry)) n F,
@@ -1333,11 +1331,12 @@ Section WriterFacts.
 
   Lemma unlink_snaps : forall keys d M C t ts file tl k, DInvFull d M C t -> d_snap d = (ts, file) :: tl ->
     Forall (fun x => x <> ts) keys ->
-    DInvFull (exec d (firstn k (map (fun x => AUnlink (FSnap x)) keys))) M C t.
+    DInvFull (exec d (firstn k (map (fun x => AUnlink (FSnap x)) keys))) M C t /\
+    exists tl', d_snap (exec d (firstn k (map (fun x => AUnlink (FSnap x)) keys))) = (ts, file) :: tl'.
   Proof.
     induction keys as [|x keys IH]; intros d M C t ts file tl k HI Hs Hk; cbn [map].
-    - rewrite firstn_nil. exact HI.
-    - destruct k as [|k]; [exact HI|]. inv Hk. cbn [firstn exec fold_left].
+    - rewrite firstn_nil. split; [exact HI | eauto].
+    - destruct k as [|k]; [split; [exact HI | eauto]|]. inv Hk. cbn [firstn exec fold_left].
       destruct (step_unlink_snap d M C t x ts file tl HI Hs H1) as [H3 [H4 _]].
       exact (IH _ M C t ts file _ k H3 H4 H2).
   Qed.
@@ -1363,13 +1362,25 @@ Section WriterFacts.
     cbn [exec fold_left]. unfold exec in IH. rewrite IH by assumption. destruct f; cbn; congruence.
   Qed.
 
-  (* every crash cut of a checkpoint leaves the committed state and the counter bound alone *)
-  Lemma checkpoint_cuts : forall d w M ts a b, WInv d w M -> ts_ok d ts ->
+  (* writer state and disk agree: M is the committed state, C the counter recovery would
+     return; the writer's own counter may be ahead (ids consumed without a record) *)
+  Definition WInv (d : disk) (w : wstate) (M : state) (C : N) : Prop :=
+    DInvG d M C [] /\ C <= w_ctr w /\ (exists y, d_wal d = Some y) /\ w_mem w ≈ M.
+  Definition snap_hi (d : disk) : N := match d_snap d with [] => 0 | (t, _) :: _ => t end.
+
+  Notation op_actions := (op_actions deser mac ser enc_changes ser_hdr enc_map).
+  Notation run_ops := (run_ops deser mac ser enc_changes ser_hdr enc_map).
+  Notation crash_disk := (crash_disk deser mac ser enc_changes ser_hdr enc_map).
+  Notation mk_entry := (mk_entry mac).
+
+  (* every crash cut of a checkpoint leaves the committed state alone; the counter can only grow *)
+  Lemma checkpoint_cuts : forall d w M C ts a b, WInv d w M C -> snap_hi d <= ts ->
     let acts := fst (op_actions d w (OCheckpoint ts)) in
-    DInv (exec d (cut acts a b)) M (w_ctr w) /\
-    DInvG (exec d acts) M (w_ctr w) [] /\ d_wal (exec d acts) = d_wal d.
+    (DInv (exec d (cut acts a b)) M C \/ DInv (exec d (cut acts a b)) M (w_ctr w)) /\
+    DInvG (exec d acts) M (w_ctr w) [] /\ d_wal (exec d acts) = d_wal d /\ snap_hi (exec d acts) = ts.
   Proof.
-    intros d w M ts a b [HI [[y Hy] Hm]] Hts.
+    intros d w M C ts a b [HI [HC [[y Hy] Hm]]] Hts0.
+    assert (Hts : ts_ok d ts) by (unfold ts_ok, snap_hi in *; destruct (d_snap d) as [|[t0 b0] tl]; auto).
     destruct (snap_file_valid (w_mem w) ts (w_ctr w)) as [st' [Hv [He Htx]]].
     cbn [Wal.op_actions fst].
     set (data := enc_map (w_mem w)) in *.
@@ -1378,7 +1389,8 @@ Section WriterFacts.
     set (pre := [ACreateTrunc (FTmp ts); AAppend (FTmp ts) (frame (ser_hdr h)); AAppend (FTmp ts) data]).
     set (rn := ARename (FTmp ts) (FSnap ts)).
     pose proof HI as HI0.
-    destruct HI as [R [ew [S0 [cs [Hl [Hs [Hc [Hsort [Hb Hcs]]]]]]]]].
+    destruct HI as [R [ew [S0 [cs [Hl [Hs [Hc [Hsort [Hb [Hcs Hmx]]]]]]]]]].
+    assert (Hb' : Forall (fun e => e_txid e <= w_ctr w) (all_entries R ew)) by (eapply Forall_impl; [|exact Hb]; cbn; intros; lia).
     assert (Hrot : d_rot d = rot_bytes R) by (destruct Hl; assumption).
     assert (HRs : StronglySorted (fun a b => fst a < fst b) R) by (destruct Hl as [_ [? _]]; assumption).
     (* all rotated logs are covered *)
@@ -1386,7 +1398,7 @@ Section WriterFacts.
                       (sort_asc (d_rot d)) = rot_bytes R).
     { rewrite Hrot, rot_bytes_sorted by assumption. apply filter_all. intros p Hp.
       unfold rot_bytes in Hp. apply in_map_iff in Hp as [q [<- Hq]]. cbn [snd]. rewrite wal_max_txid_fbytes.
-      apply N.leb_le. apply max_txid_bound; [lia|]. unfold all_entries in Hb. apply Forall_app in Hb as [Hb1 _].
+      apply N.leb_le. apply max_txid_bound; [lia|]. unfold all_entries in Hb'. apply Forall_app in Hb' as [Hb1 _].
       apply Forall_forall. intros e Hin. rewrite Forall_forall in Hb1. apply Hb1. apply in_concat.
       exists (snd q). split; [apply in_map; exact Hq | exact Hin]. }
     rewrite Hdead.
@@ -1408,14 +1420,15 @@ Section WriterFacts.
     { unfold pre, Wal.snap_file. cbn [exec fold_left exec1 read write d_tmp].
       repeat (rewrite (@alookup_aput_front bytes ts); cbn [app]). reflexivity. }
     destruct (exec_tmp_only pre d Hpre) as [Hw1 [Hr1 Hs1]].
-    assert (HI1 : DInvG (exec d pre) M (w_ctr w) []) by (apply (DInvG_same_files d); assumption).
+    assert (HI1 : DInvG (exec d pre) M C []) by (apply (DInvG_same_files d); assumption).
     assert (Hts1 : ts_ok (exec d pre) ts) by (unfold ts_ok; rewrite Hs1; exact Hts).
-    destruct (step_install_snapshot_full (exec d pre) M (w_ctr w) (w_mem w) ts _ h st' [] HI1 Hts1 Hrd Hv He Hm Htx)
+    destruct (step_install_snapshot_full (exec d pre) M C (w_ctr w) (w_mem w) ts _ h st' [] HI1 HC Hts1 Hrd Hv He Hm Htx)
       as [HF2 [Hr2 [tl2 [Hs2 _]]]].
     set (d2 := exec1 (exec d pre) rn) in *.
     assert (Hrot2 : d_rot d2 = rot_bytes R) by (unfold d2, rn; rewrite Hr2, Hr1; exact Hrot).
     (* any number of the clean-up steps *)
-    assert (Hclean : forall k, DInvFull (exec d2 (firstn k (U1 ++ U2))) M (w_ctr w) []).
+    assert (Hclean : forall k, DInvFull (exec d2 (firstn k (U1 ++ U2))) M (w_ctr w) [] /\
+                               exists tl', d_snap (exec d2 (firstn k (U1 ++ U2))) = (ts, snap_file h data) :: tl').
     { intro k. rewrite firstn_app, exec_app.
       destruct (unlink_all_rot R d2 M (w_ctr w) [] k HF2 Hrot2) as [H3 H4]. fold U1 in H3, H4.
       apply (unlink_snaps keys _ M (w_ctr w) [] ts (snap_file h data) tl2); [exact H3 | rewrite H4; exact Hs2 | exact Hkeys]. }
@@ -1428,17 +1441,17 @@ Section WriterFacts.
       rewrite <- (firstn_skipn k (U1 ++ U2)). apply in_or_app. left. exact Hu. }
     assert (Hacts : forall k, exec d (pre ++ rn :: firstn k (U1 ++ U2)) = exec d2 (firstn k (U1 ++ U2))).
     { intro k. rewrite exec_app. reflexivity. }
-    split; [|split].
-    - change (DInv (exec d (cut (pre ++ rn :: U1 ++ U2) a b)) M (w_ctr w)).
+    split; [|split; [|split]].
+    - change (DInv (exec d (cut (pre ++ rn :: U1 ++ U2) a b)) M C \/ DInv (exec d (cut (pre ++ rn :: U1 ++ U2) a b)) M (w_ctr w)).
       destruct a as [|[|[|[|k]]]].
-      + cbn. eapply DInvG_DInv. exact HI0.
-      + assert (Ht : Forall tmp_only (cut (pre ++ rn :: U1 ++ U2) 1 b)) by (cbn [cut firstn nth_error app pre]; destruct b; repeat constructor).
+      + left. cbn. eapply DInvG_DInv. exact HI0.
+      + left. assert (Ht : Forall tmp_only (cut (pre ++ rn :: U1 ++ U2) 1 b)) by (cbn [cut firstn nth_error app pre]; destruct b; repeat constructor).
         destruct (exec_tmp_only _ d Ht) as [A1 [A2 A3]]. eapply DInvG_DInv. apply (DInvG_same_files d); eassumption.
-      + assert (Ht : Forall tmp_only (cut (pre ++ rn :: U1 ++ U2) 2 b)) by (cbn [cut firstn nth_error app pre]; destruct b; repeat constructor).
+      + left. assert (Ht : Forall tmp_only (cut (pre ++ rn :: U1 ++ U2) 2 b)) by (cbn [cut firstn nth_error app pre]; destruct b; repeat constructor).
         destruct (exec_tmp_only _ d Ht) as [A1 [A2 A3]]. eapply DInvG_DInv. apply (DInvG_same_files d); eassumption.
-      + assert (Ht : Forall tmp_only (cut (pre ++ rn :: U1 ++ U2) 3 b)) by (cbn [cut firstn nth_error app pre]; repeat constructor).
+      + left. assert (Ht : Forall tmp_only (cut (pre ++ rn :: U1 ++ U2) 3 b)) by (cbn [cut firstn nth_error app pre]; repeat constructor).
         destruct (exec_tmp_only _ d Ht) as [A1 [A2 A3]]. eapply DInvG_DInv. apply (DInvG_same_files d); eassumption.
-      + rewrite cut_no_append.
+      + right. rewrite cut_no_append.
         * change (firstn (S (S (S (S k)))) (pre ++ rn :: U1 ++ U2)) with (pre ++ rn :: firstn k (U1 ++ U2)).
           rewrite Hacts. eapply DInvG_DInv. apply DInvFull_DInvG. apply Hclean.
         * intros f x E. change (nth_error (pre ++ rn :: U1 ++ U2) (S (S (S (S k))))) with (nth_error (U1 ++ U2) k) in E.
@@ -1447,19 +1460,313 @@ Section WriterFacts.
       rewrite <- (firstn_all (U1 ++ U2)), Hacts. apply DInvFull_DInvG. apply Hclean.
     - change (d_wal (exec d (pre ++ rn :: U1 ++ U2)) = d_wal d).
       rewrite <- (firstn_all (U1 ++ U2)), Hacts. apply Hwal.
+    - change (snap_hi (exec d (pre ++ rn :: U1 ++ U2)) = ts).
+      rewrite <- (firstn_all (U1 ++ U2)), Hacts. destruct (Hclean (length (U1 ++ U2))) as [_ [tl' Htl]].
+      unfold snap_hi. rewrite Htl. reflexivity.
+  Qed.
+
+  (* ---- whole operations *)
+  Lemma mk_entry_verify : forall c ts t k v, verify (mk_entry c ts t k v) = true.
+  Proof. intros. unfold Wal.verify, Wal.mk_entry, fields_of. cbn. apply bytes_eqb_refl. Qed.
+
+  Lemma write_actions_snap : forall d w e rot y, d_wal d = Some y ->
+    d_snap (exec d (fst (write_actions ser d w e rot))) = d_snap d.
+  Proof.
+    intros d w e rot y Hy. unfold write_actions.
+    destruct (rot && ((WAL_MAX_SIZE <=? w_size w + len (frame (ser e))) || (WAL_MAX_ENTRIES <=? w_count w + 1)));
+      cbn [fst exec fold_left exec1 read write unlink d_wal d_rot d_snap d_tmp]; rewrite ?Hy; reflexivity.
+  Qed.
+
+  (* every stored value decodes as a value of the stored type *)
+  Definition mem_ok (st : state) : Prop := forall k v, get st k = Some v -> val_ok v = true.
+  Definition changes_ok (cs : list change) : Prop := forall k v, In (k, Some v) cs -> val_ok v = true.
+  Lemma mem_ok_steq : forall a b, a ≈ b -> mem_ok a -> mem_ok b.
+  Proof. intros a b H Ha k v Hg. apply (Ha k v). rewrite H. exact Hg. Qed.
+  Lemma mem_ok_apply_changes : forall cs st, mem_ok st -> changes_ok cs -> mem_ok (apply_changes st cs).
+  Proof.
+    intros cs st Hs Hc k v Hg. apply get_apply_changes_src in Hg as [Hg | Hg]; [exact (Hc k v Hg) | exact (Hs k v Hg)].
+  Qed.
+
+  Definition op_ok (d : disk) (o : op) : Prop :=
+    match o with
+    | OUpsert _ _ v => val_ok v = true
+    | ODelete _ _ | OBatchFail => True
+    | OCheckpoint ts => snap_hi d <= ts
+    | OBatch _ cs => changes_ok cs
+    end.
+  Lemma mem_ok_apply_op : forall d M o, mem_ok M -> op_ok d o -> mem_ok (apply_op M o).
+  Proof.
+    intros d M o HM Ho. unfold apply_op. apply mem_ok_apply_changes; [exact HM|].
+    destruct o; cbn in *; intros k' v' Hin; try contradiction.
+    - destruct Hin as [Hin | []]. inv Hin. exact Ho.
+    - destruct Hin as [Hin | []]. discriminate.
+    - exact (Ho k' v' Hin).
+  Qed.
+
+  Lemma DInv_steq : forall d M M' C, M ≈ M' -> DInv d M C -> DInv d M' C.
+  Proof. intros d M M' C H [t HI]. exists t. eapply DInvG_steq; eassumption. Qed.
+
+  Lemma write_op_step : forall d w M C e y mem' rot, WInv d w M C -> d_wal d = Some y -> genuine e ->
+    e_txid e = w_ctr w + 1 -> mem' ≈ apply_changes M (eff e) ->
+    let r := write_actions ser d w e rot in
+    WInv (exec d (fst r)) (mkW mem' (w_ctr w + 1) (w_count (snd r)) (w_size (snd r))) (apply_changes M (eff e)) (w_ctr w + 1) /\
+    snap_hi (exec d (fst r)) = snap_hi d /\
+    forall a b, DInv (exec d (cut (fst r) a b)) M C \/ DInv (exec d (cut (fst r) a b)) (apply_changes M (eff e)) (w_ctr w + 1).
+  Proof.
+    intros d w M C e y mem' rot [HI [HC [_ Hm]]] Hy Hg Htx Hmem r.
+    assert (Hlt : C < e_txid e) by lia.
+    pose proof (write_full d w M C e y rot HI Hy Hg Hlt) as [Hf [y' Hy']]. rewrite Htx in Hf.
+    split; [|split].
+    - split; [exact Hf|]. split; [cbn; lia|]. split; [eauto | exact Hmem].
+    - unfold snap_hi, r. rewrite (write_actions_snap d w e rot y Hy). reflexivity.
+    - intros a b. pose proof (write_cuts d w M C e y rot a b HI Hy Hg Hlt) as H. rewrite Htx in H. exact H.
+  Qed.
+
+  Lemma op_step : forall d w M C o, WInv d w M C -> mem_ok M -> op_ok d o ->
+    exists C', C <= C' /\
+      WInv (exec d (fst (op_actions d w o))) (snd (op_actions d w o)) (apply_op M o) C' /\
+      snap_hi (exec d (fst (op_actions d w o))) = match o with OCheckpoint ts => ts | _ => snap_hi d end /\
+      forall a b, DInv (exec d (cut (fst (op_actions d w o)) a b)) M C \/
+                  DInv (exec d (cut (fst (op_actions d w o)) a b)) (apply_op M o) C'.
+  Proof.
+    intros d w M C o HW HMok Hs. pose proof HW as [HI [HC [[y Hy] Hm]]].
+    destruct o as [ts k v | ts k | ts cs | | ts]; cbn in Hs.
+    - (* upsert *)
+      set (e := mk_entry (w_ctr w + 1) ts TUpsert k (Some v)).
+      assert (Hg : genuine e).
+      { split; [apply mk_entry_verify|]. exists [(k, Some v)]. unfold Wal.entry_changes, e. cbn. rewrite Hs. reflexivity. }
+      assert (Heff : eff e = [(k, Some v)]) by (unfold eff, Wal.entry_changes, e; cbn; rewrite Hs; reflexivity).
+      assert (Hmem : set k v (w_mem w) ≈ apply_changes M (eff e)).
+      { rewrite Heff. cbn [apply_changes fold_left]. intro k'. rewrite get_set, get_apply_change. cbn [fst snd].
+        destruct (bytes_eqb k k'); [reflexivity | apply Hm]. }
+      destruct (write_op_step d w M C e y _ true HW Hy Hg eq_refl Hmem) as [H1 [H2 H3]].
+      exists (w_ctr w + 1). unfold Wal.op_actions. fold e.
+      destruct (write_actions ser d w e true) as [acts w'] eqn:Ew. cbn [fst snd] in *.
+      unfold apply_op. cbn [op_changes]. rewrite Heff in *.
+      split; [lia|]. split; [exact H1|]. split; [exact H2 | exact H3].
+    - (* delete *)
+      set (e := mk_entry (w_ctr w + 1) ts TDelete k None).
+      assert (Hg : genuine e) by (split; [apply mk_entry_verify | exists [(k, None)]; reflexivity]).
+      assert (Heff : eff e = [(k, None)]) by reflexivity.
+      assert (Hmem : del k (w_mem w) ≈ apply_changes M (eff e)).
+      { rewrite Heff. cbn [apply_changes fold_left]. intro k'. rewrite get_del, get_apply_change. cbn [fst snd].
+        destruct (bytes_eqb k k'); [reflexivity | apply Hm]. }
+      destruct (write_op_step d w M C e y _ true HW Hy Hg eq_refl Hmem) as [H1 [H2 H3]].
+      exists (w_ctr w + 1). unfold Wal.op_actions. fold e.
+      destruct (write_actions ser d w e true) as [acts w'] eqn:Ew. cbn [fst snd] in *.
+      unfold apply_op. cbn [op_changes]. rewrite Heff in *.
+      split; [lia|]. split; [exact H1|]. split; [exact H2 | exact H3].
+    - (* batch: one record holding the sorted difference between the old and the new map *)
+      set (mem' := apply_changes (w_mem w) cs).
+      assert (Hmem' : mem' ≈ apply_changes M cs) by (apply apply_changes_steq; exact Hm).
+      assert (Hok' : mem_ok mem').
+      { apply mem_ok_apply_changes; [|exact Hs]. eapply mem_ok_steq; [apply steq_sym; exact Hm | exact HMok]. }
+      pose proof (batch_diff_apply (w_mem w) mem' M Hm) as Hdiff.
+      unfold apply_op. cbn [op_changes]. unfold Wal.op_actions. fold mem'.
+      destruct (batch_diff (w_mem w) mem') as [|c0 dtl] eqn:Ed.
+      + (* nothing changed: no record, the id is consumed *)
+        exists C. cbn [fst snd exec fold_left]. cbn [apply_changes fold_left] in Hdiff.
+        assert (HMM : M ≈ apply_changes M cs) by (eapply steq_trans; [exact Hdiff | exact Hmem']).
+        split; [lia|]. split; [|split; [reflexivity|]].
+        * split; [eapply DInvG_steq; [exact HMM | exact HI]|]. split; [cbn; lia|]. split; [eauto | exact Hmem'].
+        * intros a b. left. replace (cut [] a b) with (@nil action) by (unfold cut; destruct a; reflexivity).
+          cbn. eapply DInvG_DInv. exact HI.
+      + set (diff := c0 :: dtl) in *.
+        set (e := mk_entry (w_ctr w + 1) ts TBatch [] (Some (enc_changes diff))).
+        assert (Hec : Wal.entry_changes val_ok dec_changes e = Some diff).
+        { unfold Wal.entry_changes, e. cbn. rewrite Hchg.
+          match goal with |- (if ?b then _ else _) = _ => assert (Hfa : b = true); [|rewrite Hfa; reflexivity] end.
+          apply forallb_forall. intros [k' [v'|]] Hin; [|reflexivity]. cbn.
+          apply (Hok' k' v'). apply (batch_diff_values (w_mem w) mem'). rewrite Ed. exact Hin. }
+        assert (Hg : genuine e) by (split; [apply mk_entry_verify | exists diff; exact Hec]).
+        assert (Heff : eff e = diff) by (unfold eff; rewrite Hec; reflexivity).
+        assert (Hmem2 : mem' ≈ apply_changes M (eff e)) by (rewrite Heff; apply steq_sym; exact Hdiff).
+        destruct (write_op_step d w M C e y mem' false HW Hy Hg eq_refl Hmem2) as [H1 [H2 H3]].
+        assert (Hst : apply_changes M (eff e) ≈ apply_changes M cs).
+        { rewrite Heff. eapply steq_trans; [exact Hdiff | exact Hmem']. }
+        exists (w_ctr w + 1). fold e.
+        destruct (write_actions ser d w e false) as [acts w'] eqn:Ew. cbn [fst snd] in *.
+        split; [lia|]. split; [|split; [exact H2|]].
+        * destruct H1 as [A [B [D E0]]]. split; [eapply DInvG_steq; [exact Hst | exact A]|].
+          split; [exact B|]. split; [exact D|]. eapply steq_trans; [exact E0 | exact Hst].
+        * intros a b. destruct (H3 a b) as [H | H]; [left; exact H | right; eapply DInv_steq; [exact Hst | exact H]].
+    - (* rolled-back batch: only the writer's counter moves *)
+      exists C. cbn [Wal.op_actions fst snd]. unfold apply_op. cbn [op_changes apply_changes fold_left exec].
+      split; [lia|]. split; [|split; [reflexivity|]].
+      + split; [exact HI|]. split; [cbn; lia|]. split; [eauto | exact Hm].
+      + intros a b. left. replace (cut [] a b) with (@nil action) by (unfold cut; destruct a; reflexivity).
+        cbn. eapply DInvG_DInv. exact HI.
+    - (* checkpoint *)
+      exists (w_ctr w). split; [exact HC|].
+      unfold apply_op. cbn [op_changes apply_changes fold_left].
+      assert (Hw' : snd (op_actions d w (OCheckpoint ts)) = w) by reflexivity. rewrite Hw'.
+      split; [|split].
+      + destruct (checkpoint_cuts d w M C ts 0 0 HW Hs) as [_ [H2 [H3 _]]].
+        split; [exact H2|]. split; [lia|]. split; [rewrite H3; eauto | exact Hm].
+      + destruct (checkpoint_cuts d w M C ts 0 0 HW Hs) as [_ [_ [_ H4]]]. exact H4.
+      + intros a b. destruct (checkpoint_cuts d w M C ts a b HW Hs) as [H1 _]. exact H1.
+  Qed.
+
+  (* histories: values are well-formed and checkpoint names never go backwards *)
+  Fixpoint ops_ok (hi : N) (ops : list op) : Prop :=
+    match ops with
+    | [] => True
+    | o :: tl => match o with
+                 | OUpsert _ _ v => val_ok v = true /\ ops_ok hi tl
+                 | ODelete _ _ | OBatchFail => ops_ok hi tl
+                 | OCheckpoint ts => hi <= ts /\ ops_ok ts tl
+                 | OBatch _ cs => changes_ok cs /\ ops_ok hi tl
+                 end
+    end.
+
+  Lemma ops_ok_head : forall hi o tl d, ops_ok hi (o :: tl) -> snap_hi d <= hi ->
+    op_ok d o /\ ops_ok (match o with OCheckpoint ts => ts | _ => hi end) tl.
+  Proof.
+    intros hi o tl d H Hhi. destruct o; cbn in *; try tauto. destruct H. split; [lia | assumption].
+  Qed.
+
+  (* every crash point of every history *)
+  Lemma crash_prefix : forall ops d w M C hi i a b, WInv d w M C -> mem_ok M -> snap_hi d <= hi -> ops_ok hi ops ->
+    exists j C', (i <= j <= S i)%nat /\ C <= C' /\ DInv (crash_disk d w ops i a b) (apply_ops M (firstn j ops)) C' /\
+                 mem_ok (apply_ops M (firstn j ops)).
+  Proof.
+    induction ops as [|o tl IH]; intros d w M C hi i a b HW HMok Hhi Hok.
+    - exists i, C. split; [lia|]. split; [lia|]. split; [|rewrite firstn_nil; exact HMok]. unfold Wal.crash_disk. rewrite firstn_nil. cbn.
+      destruct i; cbn; eapply DInvG_DInv; exact (proj1 HW).
+    - destruct (ops_ok_head hi o tl d Hok Hhi) as [Ho Htl].
+      destruct (op_step d w M C o HW HMok Ho) as [C1 [HC1 [HW1 [Hsn Hcut]]]].
+      pose proof (mem_ok_apply_op d M o HMok Ho) as HMok1.
+      destruct i as [|i].
+      + unfold Wal.crash_disk. cbn [firstn Wal.run_ops nth_error].
+        destruct (Hcut a b) as [H | H].
+        * exists 0%nat, C. split; [lia|]. split; [lia|]. split; [exact H | exact HMok].
+        * exists 1%nat, C1. split; [lia|]. split; [exact HC1|]. split; [exact H | exact HMok1].
+      + assert (Hstep : crash_disk d w (o :: tl) (S i) a b =
+                        crash_disk (exec d (fst (op_actions d w o))) (snd (op_actions d w o)) tl i a b).
+        { unfold Wal.crash_disk. cbn [firstn Wal.run_ops nth_error]. destruct (op_actions d w o) as [acts w']. reflexivity. }
+        rewrite Hstep.
+        assert (Hhi1 : snap_hi (exec d (fst (op_actions d w o))) <= match o with OCheckpoint ts => ts | _ => hi end)
+          by (rewrite Hsn; destruct o; lia).
+        destruct (IH _ _ _ C1 _ i a b HW1 HMok1 Hhi1 Htl) as [j [C' [Hj [HC' [HD HMj]]]]].
+        exists (S j), C'. split; [lia|]. split; [lia|]. cbn [firstn apply_ops fold_left]. split; [exact HD | exact HMj].
+  Qed.
+
+  (* ---- opening the store: create state.wal if missing, recover, cut a torn tail *)
+  Lemma fold_good_len : forall bodies a0, fold_left (fun a f => a + 4 + len f) bodies a0 = a0 + len (frames bodies).
+  Proof.
+    induction bodies as [|b tl IH]; intro a0; [cbn; lia|].
+    cbn [fold_left]. rewrite IH. change (frames (b :: tl)) with (frame b ++ frames tl).
+    rewrite len_app, frame_len. lia.
+  Qed.
+  Lemma good_len_torn : forall bodies t, Forall small bodies -> torn t -> good_len (frames bodies ++ t) = len (frames bodies).
+  Proof. intros. unfold good_len. rewrite parse_frames_torn by assumption. cbn [fst]. rewrite fold_good_len. lia. Qed.
+
+  Lemma open_WInv : forall d M C, DInv d M C -> WInv (open_disk d) (open_wstate deser mac val_ok dec_changes deser_hdr dec_map d) M C.
+  Proof.
+    intros d M C [t HI]. pose proof HI as [R [ew [S0 [cs [Hl [Hs [Hc [Hsort [Hb [Hcs Hmx]]]]]]]]]].
+    destruct Hl as [Hr [HRs [Hw [Ht Hg]]]].
+    unfold open_wstate, open_rstate, open_disk, open_actions.
+    destruct Hw as [Hw | [Hw [-> ->]]].
+    - (* state.wal present *)
+      assert (Hc0 : exec d [ACreate FWal] = d) by (cbn [exec fold_left exec1 read]; rewrite Hw; reflexivity).
+      rewrite Hc0. destruct (recover_DInv d M C (ex_intro _ t HI)) as [Hst Hct].
+      rewrite Hw. destruct Ht as [-> | Ht].
+      + rewrite app_nil_r. unfold fbytes. rewrite parse_frames_exact by apply small_sers. cbn [snd exec fold_left].
+        split; [exact HI|]. split; [cbn; lia|]. split; [rewrite Hw; eauto | exact Hst].
+      + unfold fbytes. rewrite parse_frames_torn by (auto using small_sers). cbn [snd exec fold_left exec1 read].
+        rewrite Hw. rewrite good_len_torn by (auto using small_sers).
+        replace (N.to_nat (len (frames (map ser ew)))) with (length (frames (map ser ew))) by (unfold len; rewrite Nat2N.id; reflexivity).
+        rewrite firstn_app_exact by reflexivity.
+        split; [|split; [cbn; lia | split; [cbn; eauto | exact Hst]]].
+        exists R, ew, S0, cs. unfold LogShape, SnapShape in *. cbn [write d_wal d_rot d_snap].
+        split; [|split; [exact Hs | split; [exact Hc | split; [exact Hsort | split; [exact Hb | split; [exact Hcs | exact Hmx]]]]]].
+        split; [exact Hr|]. split; [exact HRs|]. split; [left; rewrite app_nil_r; reflexivity|]. split; [left; reflexivity | exact Hg].
+    - (* state.wal missing: created empty *)
+      rewrite Hw. destruct (step_create_wal d M C HI Hw) as [H1 H2].
+      change (exec d [ACreate FWal]) with (exec1 d (ACreate FWal)).
+      destruct (recover_DInv _ M C (ex_intro _ [] H1)) as [Hst Hct].
+      split; [exact H1|]. split; [cbn [w_ctr]; rewrite Hct; lia|]. split; [eauto | exact Hst].
+  Qed.
+
+  Lemma open_snap_hi : forall d, snap_hi (open_disk d) = snap_hi d.
+  Proof.
+    intro d. unfold open_disk, open_actions, snap_hi. destruct (d_wal d) as [b|] eqn:E.
+    - destruct (snd (parse b)); cbn [exec fold_left exec1 read]; rewrite ?E; reflexivity.
+    - cbn [exec fold_left exec1 read]. rewrite E. reflexivity.
+  Qed.
+
+  (* ---- repeated crash / reopen cycles *)
+  Definition cyc := (list op * (nat * nat * nat))%type.
+  Definition run_cycle (d : disk) (c : cyc) : disk :=
+    let '(ops, (i, a, b)) := c in
+    crash_disk (open_disk d) (open_wstate deser mac val_ok dec_changes deser_hdr dec_map d) ops i a b.
+  Fixpoint run_cycles (d : disk) (cs : list cyc) : disk :=
+    match cs with [] => d | c :: tl => run_cycles (run_cycle d c) tl end.
+  (* in every cycle: well-formed values, and checkpoint names at or after the newest snapshot present *)
+  Fixpoint cycles_ok (d : disk) (cs : list cyc) : Prop :=
+    match cs with [] => True | c :: tl => ops_ok (snap_hi d) (fst c) /\ cycles_ok (run_cycle d c) tl end.
+  (* the state left by the cycles: in each, a prefix of its operations with acked <= j <= issued *)
+  Inductive survives : state -> list cyc -> state -> Prop :=
+  | sv_nil : forall M M', M ≈ M' -> survives M [] M'
+  | sv_cons : forall M ops i a b j tl M', (i <= j <= S i)%nat ->
+      survives (apply_ops M (firstn j ops)) tl M' -> survives M ((ops, (i, a, b)) :: tl) M'.
+
+  Lemma cycles_prefix : forall cs d M C, DInv d M C -> mem_ok M -> cycles_ok d cs ->
+    exists M' C', C <= C' /\ DInv (run_cycles d cs) M' C' /\ survives M cs M'.
+  Proof.
+    induction cs as [|[ops [[i a] b]] tl IH]; intros d M C HD HMok Hok.
+    - exists M, C. split; [lia|]. split; [exact HD | constructor; apply steq_refl].
+    - destruct Hok as [Hops Htl]. cbn [fst] in Hops.
+      pose proof (open_WInv d M C HD) as HW.
+      assert (Hhi : snap_hi (open_disk d) <= snap_hi d) by (rewrite open_snap_hi; lia).
+      destruct (crash_prefix ops _ _ M C (snap_hi d) i a b HW HMok Hhi Hops) as [j [C1 [Hj [HC1 [HD1 HM1]]]]].
+      destruct (IH (run_cycle d (ops, (i, a, b))) _ C1 HD1 HM1 Htl) as [M' [C' [HC' [HD' Hsv]]]].
+      exists M', C'. split; [lia|]. split; [exact HD'|]. econstructor; eassumption.
+  Qed.
+
+  Lemma crash_prefix_recover : forall ops d w M C hi i a b, WInv d w M C -> mem_ok M -> snap_hi d <= hi -> ops_ok hi ops ->
+    exists j, (i <= j <= S i)%nat /\
+      r_state (recover (crash_disk d w ops i a b)) ≈ apply_ops M (firstn j ops) /\
+      C <= r_ctr (recover (crash_disk d w ops i a b)).
+  Proof.
+    intros ops d w M C hi i a b HW HMok Hhi Hok.
+    destruct (crash_prefix ops d w M C hi i a b HW HMok Hhi Hok) as [j [C' [Hj [HC [HD _]]]]].
+    destruct (recover_DInv _ _ _ HD) as [H1 H2]. exists j. rewrite H2. auto.
+  Qed.
+
+  Lemma clean_restart : forall ops d w M C hi, WInv d w M C -> mem_ok M -> snap_hi d <= hi -> ops_ok hi ops ->
+    r_state (recover (fst (run_ops d w ops))) ≈ apply_ops M ops.
+  Proof.
+    intros ops d w M C hi HW HMok Hhi Hok.
+    destruct (crash_prefix_recover ops d w M C hi (length ops) 0 0 HW HMok Hhi Hok) as [j [Hj [H _]]].
+    rewrite firstn_all2 in H by lia.
+    unfold Wal.crash_disk in H. rewrite firstn_all in H.
+    destruct (run_ops d w ops) as [d1 w1]. 
+    replace (nth_error ops (length ops)) with (@None op) in H by (symmetry; apply nth_error_None; lia).
+    exact H.
+  Qed.
+
+  Lemma cycles_recover : forall cs d M C, DInv d M C -> mem_ok M -> cycles_ok d cs ->
+    exists M', survives M cs M' /\ r_state (recover (run_cycles d cs)) ≈ M' /\
+               r_ctr (recover d) <= r_ctr (recover (run_cycles d cs)).
+  Proof.
+    intros cs d M C HD HMok Hok. destruct (cycles_prefix cs d M C HD HMok Hok) as [M' [C' [HC [HD' Hsv]]]].
+    destruct (recover_DInv _ _ _ HD) as [_ H0]. destruct (recover_DInv _ _ _ HD') as [H1 H2].
+    exists M'. rewrite H0, H2. auto.
   Qed.
 
   (* the empty directory, once state.wal has been created *)
-  Lemma WInv_init : WInv (exec disk0 [ACreate FWal]) (mkW [] 0 0 0) [].
+  Lemma WInv_init : WInv (exec disk0 [ACreate FWal]) (mkW [] 0 0 0) [] 0.
   Proof.
-    split; [|split; [cbn; eauto | apply steq_refl]].
+    split; [|split; [cbn; lia | split; [cbn; eauto | apply steq_refl]]].
     exists [], [], [], 0. unfold LogShape, SnapShape, Cover, all_entries. cbn.
-    split; [|split; [|split; [|split; [|split]]]].
+    split; [|split; [|split; [|split; [|split; [|split]]]]].
     - split; [reflexivity|]. split; [constructor|]. split; [left; reflexivity|]. split; [left; reflexivity | constructor].
     - split; [constructor | split; reflexivity].
     - exists [], [], [], []. cbn. repeat split; try constructor; apply steq_refl.
     - constructor.
     - constructor.
     - lia.
+    - reflexivity.
   Qed.
 End WriterFacts.
